@@ -82,6 +82,33 @@ Example box_ex_values :   (* important beats normal; an unknown unit drops the d
   side_value e true l 0 = Some (SV (px 1)) /\ side_value e true l 3 = Some (SV (px 2))
   /\ side_value (mkBE (fun _ => true) (fun _ => false) (fun _ _ => false)) true l 0 = Some (SV (vw 1)).
 Proof. vm_compute. repeat split; reflexivity. Qed.
+From V Require Import C12.RadiusTracker C12.RadiusSpec C12.RadiusMain.
+(* border-radius tracker on the model; the slash is TOther 0 *)
+Definition sl := TOther 0.
+Example radius_ex_collapse :   (* four corner longhands with two radii each, one other declaration in between *)
+  radius_process [mkB (KSide 0) [px 1; px 2] false; mkB (KSide 1) [px 1; px 2] false; mkB (KOther 1) [] false;
+                  mkB (KSide 2) [px 1; px 2] false; mkB (KSide 3) [px 0; px 0] false]
+  = [mkB (KOther 1) [] false; mkB KShort [px 1; px 1; px 1; TNum 0; sl; px 2; px 2; px 2; TNum 0] false].
+Proof. vm_compute. reflexivity. Qed.
+Example radius_ex_second_copy :   (* a{border-radius:1px 2px/3px;border-top-left-radius:0px}: the copied second radius keeps its unit *)
+  radius_process [mkB KShort [px 1; px 2; sl; px 3] false; mkB (KSide 0) [px 0] false]
+  = [mkB KShort [TNum 0; px 2; px 1; sl; px 0; px 3; px 3] false].
+Proof. vm_compute. reflexivity. Qed.
+Example radius_ex_dabbe91 :   (* the shorthand goes to the greatest tracked index; two equal radii are merged *)
+  radius_process [mkB KShort [px 1] false; mkB (KSide 0) [vw 1] false; mkB (KSide 0) [px 5; px 5] false]
+  = [mkB (KSide 0) [vw 1] false; mkB KShort [px 5; px 1; px 1] false].
+Proof. vm_compute. reflexivity. Qed.
+Example radius_ex_values :   (* both radii; important beats normal; an unknown unit drops the declaration *)
+  let l := [mkB KShort [px 1; px 2; sl; px 3] false; mkB (KSide 0) [vw 1] false; mkB (KSide 3) [px 0; px 4] true; mkB (KSide 3) [px 5] false] in
+  let e := mkBE (fun _ => false) (fun _ => false) (fun _ _ => false) in
+  corner_value e l 0 = Some (RV (px 1) (px 3)) /\ corner_value e l 3 = Some (RV (TNum 0) (px 4))
+  /\ corner_value (mkBE (fun _ => true) (fun _ => false) (fun _ _ => false)) l 0 = Some (RV (vw 1) (vw 1))
+  /\ corner_value e l 1 = Some (RV (px 2) (px 3)).
+Proof. vm_compute. repeat split; reflexivity. Qed.
+Example radius_ex_theorem :   (* the theorem instantiated on the second-copy case *)
+  let l := [mkB KShort [px 1; px 2; sl; px 3] false; mkB (KSide 0) [px 0] false] in
+  forall e c, corner_value e (radius_process l) c = corner_value e l c.
+Proof. intros l e c. apply radius_collapse_keeps_corners_all. repeat constructor. Qed.
 Example dedupe_ex :
   keep_last decl_eqb [mkDecl 1 1 true 0; mkDecl 1 2 false 0; mkDecl 1 1 false 0; mkDecl 1 1 true 0; mkDecl 1 2 false 0]
   = [mkDecl 1 1 false 0; mkDecl 1 1 true 0; mkDecl 1 2 false 0].
